@@ -13,7 +13,7 @@
 EXTENDS HttpFramingOps, Json, IOUtils
 Tr == ndJsonDeserialize(IOEnv.TRACE)
 Mode == IF "MODE" \in DOMAIN IOEnv THEN IOEnv.MODE ELSE "property"
-KFEnv == IF "KF" \in DOMAIN IOEnv /\ IOEnv.KF # "" THEN {IOEnv.KF} ELSE {}
+KFEnv == (IF "KF" \in DOMAIN IOEnv /\ IOEnv.KF # "" THEN {IOEnv.KF} ELSE {}) \cup (IF "KF2" \in DOMAIN IOEnv /\ IOEnv.KF2 # "" THEN {IOEnv.KF2} ELSE {})
 VARIABLES l, cur
 CAP == 65535
 Has(r, f) == f \in DOMAIN r
